@@ -98,9 +98,29 @@ def make_elf(sections, symbols=(), bits=64, addrs=None, etype=1, relocs=()):
     return eh + body + sh
 
 
+HEX_FILE_NAMES = ["9e107d9d372bb6826bd81d3542a419d6", "cafe", "dd", "ed", "a", "0badc0de", "DEADBEEF"]
+
+
 def run_objdump(args, timeout=120):
-    """-> (returncode, stdout, stderr)"""
-    p = subprocess.run([OBJDUMP, *args], capture_output=True, text=True, timeout=timeout)
+    """-> (returncode, stdout, stderr).  One file in five is handed to objdump the way samples are stored: under a bare name made of
+    hexadecimal digits only (an MD5, `cafe`), from its directory - the title line of the listing then reads `cafe:     file format ...`."""
+    import os
+    import zlib
+
+    cwd = None
+    path = args[-1] if args else None
+    if isinstance(path, str) and os.path.isfile(path) and os.path.isabs(path):
+        with open(path, "rb") as f:
+            h = zlib.crc32(f.read())
+        if h % 5 == 0:
+            cwd = os.path.dirname(path)
+            bare = HEX_FILE_NAMES[h // 5 % len(HEX_FILE_NAMES)]
+            twin = os.path.join(cwd, bare)
+            if os.path.lexists(twin):
+                os.unlink(twin)
+            os.link(path, twin)
+            args = list(args[:-1]) + [bare]
+    p = subprocess.run([OBJDUMP, *args], capture_output=True, text=True, timeout=timeout, cwd=cwd)
     return p.returncode, p.stdout, p.stderr
 
 
